@@ -31,6 +31,8 @@ EXPLANATION = (
 
 
 def run(ctx: Ctx) -> None:
+    from ..rules import tableau as _tbx
+    _tbx.rule_xz_rowops(ctx, ["graphiq/backends/stabilizer/functions/linalg.py", "graphiq/backends/stabilizer/functions/stabilizer.py"])
     from ..rules import memo as _memo
     _memo.rule_memo_sound(ctx, ['graphiq/backends/lc_equivalence_check.py', 'graphiq/backends/stabilizer/functions/local_cliff_equi_check.py', 'graphiq/backends/graph/state.py'])
     _memo.rule_falsy_zero(ctx, ['graphiq/backends/lc_equivalence_check.py', 'graphiq/backends/stabilizer/functions/local_cliff_equi_check.py', 'graphiq/backends/graph/state.py'])
